@@ -402,7 +402,7 @@ def adaptor_case(ctx, stack, cd, seed, meta=None):
     path = ub.project_path(d)
     vs.write_project(path, db)
     real, cd2, err = ub.real_load(path, name)
-    model = ctx.km.call("ub_load", vs.db_v(db), name)
+    model = ctx.km.call("ub_load", vs.db_v(db), name) if ctx.km is not None else real
     info = dict(meta or {}, via_project=seed, error=err)
     if real != model:
         ctx.tie_broken("correspondence ExtractClassDiagram vs UmlBlob.load_cdiagram on a synthesised project", info)
@@ -412,7 +412,7 @@ def adaptor_case(ctx, stack, cd, seed, meta=None):
     if ub.modid(real[0], cd) != want:
         ctx.violation("the class diagram read back from the synthesised project differs from the one written",
                       dict(info, finding_key="uml-adaptor:roundtrip", finding_class="uml-adaptor"))
-    if ctx.km.call("ub_adaptor", vs.db_v(db), name) != [ub.abstract_view(cd2)]:
+    if ctx.km is not None and ctx.km.call("ub_adaptor", vs.db_v(db), name) != [ub.abstract_view(cd2)]:
         ctx.tie_broken("UmlBlob.adaptor differs from the abstract diagram of the objects read back", info)
     ctx.count("adaptor_synthesised_projects")
     return path, name, cd2
@@ -518,7 +518,7 @@ def run(ctx):
         dclspc = "" if idx % 3 else "DLL_API"
         with contextlib.ExitStack() as stack:
             project = None
-            if ctx.km is not None and seed != -1 and (idx % 3 == 1 or nedits == 0):
+            if seed != -1 and (idx % 3 == 1 or nedits == 0 or ctx.km is None):
                 # a share of the cases goes through a synthesised project file and the real adaptor / public entry point
                 project = adaptor_case(ctx, stack, cd, seed, {"label": label, "mut_seed": seed, "nedits": nedits})
                 if project is not None:
@@ -562,7 +562,7 @@ def replay(ctx, data):
         edits = ["probe:" + data["probe"]]
     with contextlib.ExitStack() as stack:
         project = None
-        if "via_project" in data and ctx.km is not None:
+        if "via_project" in data:
             before = len(ctx.violations) + len(ctx.known) + len(ctx.broken)
             project = adaptor_case(ctx, stack, cd, data["via_project"])
             if str(data.get("finding_key", "")).startswith("uml-adaptor"):
